@@ -72,8 +72,8 @@ def parseTimed : List String → Option Timer
     some ⟨at_, rank, .hop hops opId op⟩
   | _ => none
 
-/-- the invariant that is stated (not proved) as `inFlightBelongsToReportedSequenceFull`: checked on every
-intermediate state of every case -/
+/-- the invariant proved as `in_flight_belongs_to_reported_sequence` (Props/C19.lean), evaluated on every intermediate
+state of every case as a cross-check of the driver against the theorem -/
 def inFlightOk (s : St) : Bool :=
   s.ready.all fun h => match h with
     | .ff sid _ => (match s.port.seq with | some q => q.id == sid | none => false)
